@@ -153,6 +153,8 @@ func c03Prepop(kind int) *ref.AF {
 		return &ref.AF{RAI: true, Ext: []byte{0xE1, 0xE2}}
 	case 4:
 		return &ref.AF{Disc: true, Splice: []byte{0x80}, Private: []byte{}, Ext: []byte{}}
+	case 6, 7:
+		return c03Prepop(kind - 5)
 	}
 	return &ref.AF{}
 }
@@ -172,7 +174,10 @@ func c03New(id int) *c03State {
 	afLen, kind := id/8, id%8
 	s := &c03State{afLen: afLen, m: c03Prepop(kind)}
 	s.hdr = ref.Header{Sync: 0x47, PUSI: afLen%2 == 1, PID: 0x100 + afLen, AFC: 3, CC: byte(afLen & 0xF)}
-	if afLen == 183 {
+	if afLen == 183 || kind >= 5 {
+		// kinds 5..7: the payload flag is clear although the field is shorter than 183 bytes (the quantifier
+		// names lengths 1..183 "with or without payload"); the bytes behind the field are then nobody's, and
+		// like a payload they must stay as they are
 		s.hdr.AFC = 2
 	}
 	s.payload = make([]byte, 183-afLen)
@@ -663,6 +668,15 @@ func init() {
 			c03BFS("all-lengths-shallow",
 				"BFS from the empty and 4 pre-populated adaptation fields of EVERY adaptation_field_length 1..183 (payload 183-len bytes, AF-only at 183), alphabet of 56 setter calls (3 indicators x2, 5 presence toggles x2, 3 PCR + 3 OPCR values and, for each, the value its getter reports at that moment, 4 splice values, private data / extension with lengths {0,1,2,exact fit,fit+1,256,300}, whole-field copy from 9 source packets (three whose content ends in 0xFF bytes) with a 183-byte field and 5 whose field is exactly as long as its content); after every call bytes == reference serialisation and all getters of both APIs == model; states deduplicated on the 188 packet bytes; depth 2 (quick) / 3 (thorough)",
 				func(r *engine.Run) []int { return c03Inits(seq(1, 183), []int{0, 1, 2, 3, 4}) },
+				func(r *engine.Run) int {
+					if r.Thorough() {
+						return 3
+					}
+					return 2
+				}, nil),
+			c03BFS("short-fields-without-payload",
+				"same alphabet and oracle from packets whose payload flag is clear although adaptation_field_length is below 183 (every length 1..182, empty and 2 pre-populated fields): the bytes behind the field take the place of the payload in the reference, a call whose content exceeds adaptation_field_length must fail and change nothing; depth 2 (quick) / 3 (thorough)",
+				func(r *engine.Run) []int { return c03Inits(seq(1, 182), []int{5, 6, 7}) },
 				func(r *engine.Run) int {
 					if r.Thorough() {
 						return 3
